@@ -5,3 +5,4 @@ import Properties.C12
 import Properties.C14
 import Properties.C16
 import Properties.C10
+import Properties.C09
